@@ -296,6 +296,9 @@ class _ShaHasher(PasswordHasher):
 
     def hash(self, secret: StrOrBytes, *, salt: StrOrBytes | None = None) -> str:
         salt = as_str(salt) if salt is not None else _gen_salt(16)
+        if len(salt) > 16 or "$" in salt:
+            # such a salt cannot be written into the hash string (verify() could not read it back)
+            raise ValueError("salt must be at most 16 characters and must not contain '$'")
 
         sha = _sha_crypt(
             secret=as_bytes(secret),
